@@ -24,6 +24,47 @@ def _q(x):
     return f"({fr.numerator} # {fr.denominator})"
 
 
+def _unit_int(x, U):
+    fr = Fraction(float(x)) * (1 << U)
+    assert fr.denominator == 1, "value is not a multiple of 2^-unit"
+    return int(fr)
+
+
+def _rows_u(A, U):
+    """sorted sparse rows [[col, value * 2^U], ...], explicit zeros dropped"""
+    A = sps.csr_matrix(A)
+    A.sum_duplicates()
+    A.sort_indices()
+    rows = []
+    for i in range(A.shape[0]):
+        sl = slice(A.indptr[i], A.indptr[i + 1])
+        rows.append([[int(c), _unit_int(x, U)] for c, x in zip(A.indices[sl], A.data[sl])
+                     if x != 0])
+    return rows
+
+
+def _vec_u(v, U):
+    return [_unit_int(x, U) for x in np.asarray(v, dtype=float)]
+
+
+def _fsolve(A, b):
+    """exact solution of A x = b over the rationals (Gaussian elimination); None if singular"""
+    n = len(A)
+    M = [[Fraction(x) for x in row] + [Fraction(bi)] for row, bi in zip(A, b)]
+    for c in range(n):
+        piv = next((r for r in range(c, n) if M[r][c] != 0), None)
+        if piv is None:
+            return None
+        M[c], M[piv] = M[piv], M[c]
+        pv = M[c][c]
+        M[c] = [x / pv for x in M[c]]
+        for r in range(n):
+            if r != c and M[r][c] != 0:
+                f = M[r][c]
+                M[r] = [x - f * y for x, y in zip(M[r], M[c])]
+    return [M[r][n] for r in range(n)]
+
+
 class C07(Prop):
     id = "C07"
     props_file = "Props/C07.v"
@@ -59,9 +100,11 @@ class C07(Prop):
                   "the exact-rational check), floating-point rounding, the connected-component "
                   "computation of generate_permutation_to_block_diag_matrix (a section variable). "
                   "Theorem (2) is proved for the specification-level row lists "
-                  "(rows kept / excluded per equation, C06's rows_spec vocabulary); that "
-                  "schur_blocks' loops stack exactly these rows is checked by the execution tie, "
-                  "not by a theorem (C07_rows_partial). A_ps is not observable without hooks; it "
+                  "(rows kept / excluded per equation, C06's rows_spec vocabulary) and linked to "
+                  "the transcribed loops by C07_blocks: under the size hypothesis and the "
+                  "conditions under which the code does not raise, schur_blocks returns exactly "
+                  "the rows prim_rows / sec_rows of the full system cut to the primary / "
+                  "secondary columns. A_ps is not observable without hooks; it "
                   "is covered by the solution oracle only. assembled_equation_indices after a "
                   "Schur assembly is not part of the property and not compared.")
     technique = ("Coq proof (block-elimination algebra, permutation/partition lemmas over the "
@@ -79,7 +122,12 @@ class C07(Prop):
             "names) as error stream; 30% directed reuse histories: two variables with identical layout "
             "whose equations couple the dofs along two different perfect matchings, eliminated "
             "one after the other (secondary blocks of equal shape and equal entries per row but "
-            "different sparsity pattern); non-trivial = at least two admissible splits with different "
+            "different sparsity pattern), half of them with rows and columns of the twin blocks "
+            "scaled by exact powers of two (2^-30..2^30 each, i.e. +-60 binary orders inside the "
+            "secondary block; zero state, values recorded in units of 2^-64, reduced system "
+            "solved exactly, componentwise comparison with the exact rational solution); 30% "
+            "directed insertion orders: a wholly secondary equation set BEFORE a primary "
+            "equation restricted to a subset of its grids; non-trivial = at least two admissible splits with different "
             "secondary blocks on one system; distinct by (case, output)")
     trusted = ["integer-valued float matrices (exact in binary64) stand for the Jacobian blocks; "
                "the blocks are observed through the public return values with an all-zero "
@@ -87,14 +135,17 @@ class C07(Prop):
                "stored for expand_schur_complement_solution (A_sp, b_s, prolongations)",
                "numpy.linalg.solve on well-conditioned (strictly diagonally dominant) systems of "
                "<= 60 unknowns as reference solution; comparison tolerance 1e-9*(1+|x|)",
-               "floats of inv_A_ss converted exactly to rationals (fractions.Fraction)"]
+               "floats of inv_A_ss converted exactly to rationals (fractions.Fraction); in the "
+               "scaled stream the reference solution and the reduced solve are exact rational "
+               "Gaussian elimination, comparison componentwise relative 1e-9, and the inverse "
+               "certificate is the componentwise criterion inv_ok_rel"]
     assumptions = ["the secondary block is square and invertible (the inverter returns a two-sided "
                    "inverse)",
                    "primary variables are registered and listed once",
                    "each equation's operator evaluates to as many rows as declared (C06)"]
 
     # ------------------------------------------------------------------ generation
-    def _system(self, rng, sds, intfs, cap, twin=False):
+    def _system(self, rng, sds, intfs, cap, twin=False, scaled=False):
         vars_, total = [], 0
         m = rng.randint(2, 4)
         cells0 = sds[0][0]
@@ -161,9 +212,28 @@ class C07(Prop):
                               "const": [rng.randint(-4, 4) for _ in range(rows)]})
             eqs.append([k, k, [[kind, g] for g in grids], dof])
         rng.shuffle(eqs)
-        return vars_, lay, state, operators, eqs, twin
+        scaled = scaled and twin
+        if scaled:
+            # rows of the twin equations and columns of the twin variables are scaled by exact
+            # powers of two (2^-30 .. 2^30 each, so the candidate secondary blocks span +-60
+            # binary orders of magnitude); zero state and no bilinear terms keep every entry
+            # and every residual an exactly representable dyadic number
+            state = [0] * lay.total
+            ex = lambda: rng.choice([-30, -30, 30, 30, rng.randint(-30, 30), rng.randint(-30, 30), 0])
+            rs = {k: [ex() for _ in range(operators[k]["rows"])] for k in (0, 1)}
+            cs = {lay.groups[k][0]: [ex() for _ in range(lay.size(lay.groups[k][0]))] for k in (0, 1)}
+            for k, op in enumerate(operators):
+                op["terms"] = [t for t in op["terms"] if t[0] == "lin"]
+                for _kind, forms in op["terms"]:
+                    for atom, trip in forms:
+                        for t in trip:
+                            e = (rs[k][t[0]] if k in rs else 0) + (cs[atom][t[1]] if atom in cs else 0)
+                            t[2] = float(t[2]) * 2.0 ** e
+                if k in rs:
+                    op["const"] = [float(c) * 2.0 ** rs[k][i] for i, c in enumerate(op["const"])]
+        return vars_, lay, state, operators, eqs, twin, scaled
 
-    def _split(self, rng, vars_, lay, eqs, kind, force_P=None):
+    def _split(self, rng, vars_, lay, eqs, kind, force_P=None, force_restrict=None):
         m = len(vars_)
         ks = list(range(m))
         eq_order = [e[0] for e in eqs]
@@ -176,7 +246,9 @@ class C07(Prop):
         else:
             P = rng.sample(ks, rng.randint(1, m - 1))
         restrict = {}
-        if kind == "restricted":
+        if force_restrict is not None:
+            restrict = dict(force_restrict)
+        elif kind == "restricted":
             for k in P:
                 grids = vars_[k][3]
                 if len(grids) > 1 and rng.random() < 0.7:
@@ -229,32 +301,58 @@ class C07(Prop):
         for _ in range(n):
             spec = rng.choice(pool)
             sds, intfs = grid_numbers(spec)
-            vars_, lay, state, operators, eqs, twin = self._system(
-                rng, sds, intfs, cap, twin=rng.random() < 0.3)
+            mode = rng.random()
+            vars_, lay, state, operators, eqs, twin, scaled = self._system(
+                rng, sds, intfs, cap, twin=mode < 0.3, scaled=mode < 0.15)
             splits = []
             if twin:
                 order = [0, 1] if rng.random() < 0.5 else [1, 0]
                 for z in order:
                     splits.append(self._split(rng, vars_, lay, eqs, "plain",
                                               force_P=[k for k in range(len(vars_)) if k != z]))
-            for _k in range(rng.randint(0 if twin else 2, 2 if twin else 4)):
+            multi = [k for k in range(len(vars_)) if len(vars_[k][3]) > 1]
+            if not twin and multi and mode < 0.6:
+                # directed: a wholly secondary equation set BEFORE a primary equation that is
+                # restricted to a subset of its grids (excluded rows are stacked on top of the
+                # secondary block although their equation comes later)
+                kr = rng.choice(multi)
+                ks = rng.choice([k for k in range(len(vars_)) if k != kr])
+                ir = [e[0] for e in eqs].index(kr)
+                i_s = [e[0] for e in eqs].index(ks)
+                if i_s > ir:
+                    eqs[ir], eqs[i_s] = eqs[i_s], eqs[ir]
+                rest = [k for k in range(len(vars_)) if k not in (kr, ks)]
+                P = [kr] + [k for k in rest if rng.random() < 0.5]
+                grids = vars_[kr][3]
+                splits.append(self._split(
+                    rng, vars_, lay, eqs, "restricted", force_P=P,
+                    force_restrict={kr: rng.sample(grids, rng.randint(1, len(grids) - 1))}))
+            nmore = (0, 0) if scaled else ((0, 2) if twin else (2, 4))
+            for _k in range(rng.randint(*nmore)):
                 r = rng.random()
                 kind = ("restricted" if r < 0.4 else "plain" if r < 0.82 else
                         rng.choice(["all_vars", "no_vars", "all_eqs", "nonsquare", "unknown"]))
                 splits.append(self._split(rng, vars_, lay, eqs, kind))
-            yield {"grid": spec, "sds": sds, "intfs": intfs, "vars": vars_, "state": state,
-                   "operators": operators, "eqs": eqs, "splits": splits}
+            if scaled:
+                splits.append(self._split(rng, vars_, lay, eqs, rng.choice(
+                    ["all_vars", "no_vars", "all_eqs", "unknown"])))
+            case = {"grid": spec, "sds": sds, "intfs": intfs, "vars": vars_, "state": state,
+                    "operators": operators, "eqs": eqs, "splits": splits}
+            if scaled:
+                case["unit"] = 64
+            yield case
 
     # ------------------------------------------------------------------ implementation
     def run_impl(self, case):
         c6 = dict(case, junk=False, ops=[])
         mdg, sdl, ifl, es, created, mds = _C06._build(c6)
         nd = int(es.num_dofs())
+        U = int(case.get("unit", 0))      # all recorded values are in units of 2^-U
         evals = []
         for spec in case["operators"]:
             ad = es.evaluate(_C06._expr(es, created, spec), derivative=True)
             assert ad.jac.shape == (spec["rows"], nd)
-            evals.append([_C06._sparse_rows(ad.jac), _C06._ints(ad.val)])
+            evals.append([_rows_u(ad.jac, U), _vec_u(ad.val, U)])
         registered = {}
         for name, opid, grids, info in case["eqs"]:
             e = _C06._expr(es, created, case["operators"][opid])
@@ -265,7 +363,7 @@ class C07(Prop):
         A, b = es.assemble()
         Ad = A.toarray()
         full = None
-        if Ad.shape[0] == Ad.shape[1] and Ad.shape[0] > 0:
+        if Ad.shape[0] == Ad.shape[1] and Ad.shape[0] > 0 and not U:
             full = np.linalg.solve(Ad, b)
 
         def eqkey(name, byop):
@@ -315,9 +413,10 @@ class C07(Prop):
                 assert sps.csc_matrix(pro_p).nnz == pro_p.shape[1] == len(cp)
                 assert sps.csc_matrix(pro_s).nnz == pro_s.shape[1] == len(cs)
                 rec["blocks"] = {
-                    "App": _C06._sparse_rows(S0), "bp": _C06._ints(r0),
-                    "Asp": _C06._sparse_rows(A_sp), "bs": _C06._ints(b_s),
-                    "Ass": _C06._sparse_rows(seen["Ass"]), "cp": cp, "cs": cs}
+                    "App": _rows_u(S0, U), "bp": _vec_u(r0, U),
+                    "Asp": _rows_u(A_sp, U), "bs": _vec_u(b_s, U),
+                    "Ass": _rows_u(seen["Ass"], U), "cp": cp, "cs": cs}
+                rec["Ass_f"] = [[float(x) for x in row] for row in seen["Ass"].toarray()]
             except (KeyError, ValueError, AssertionError, IndexError) as e:
                 rec["err"] = err(e)
                 outs.append(rec)
@@ -327,7 +426,15 @@ class C07(Prop):
                 S, rS = es.assemble_schur_complement_system(eqarg(pe), vrefs(pv))
                 inv = es._Schur_complement[0]
                 rec["inv"] = [[float(x) for x in row] for row in sps.csr_matrix(inv).toarray()]
-                xp = np.linalg.solve(S.toarray(), rS)
+                if U:
+                    # badly scaled on purpose: the reduced solve (not porepy's job) is done
+                    # exactly, so that only porepy's own arithmetic is under test
+                    xe = _fsolve(S.toarray().tolist(), list(rS))
+                    if xe is None:
+                        raise np.linalg.LinAlgError("reduced system singular")
+                    xp = np.array([float(x) for x in xe])
+                else:
+                    xp = np.linalg.solve(S.toarray(), rS)
                 X = es.expand_schur_complement_solution(xp)
                 rec["X"] = [float(x) for x in X]
             except (KeyError, ValueError, AssertionError, IndexError,
@@ -335,7 +442,7 @@ class C07(Prop):
                 rec["err2"] = type(e).__name__ + ": " + str(e)[:120]
             outs.append(rec)
         return {"ndofs": nd, "evals": evals,
-                "A": _C06._sparse_rows(A), "b": _C06._ints(b),
+                "A": _rows_u(A, U), "b": _vec_u(b, U),
                 "full": None if full is None else [float(x) for x in full], "outs": outs}
 
     # ------------------------------------------------------------------ oracle
@@ -364,7 +471,45 @@ class C07(Prop):
         # "all equations primary" leaves no secondary equation block: not a split
         return rows_p, rows_s, cols_p, cols_s
 
+    def _oracle_scaled(self, case, res):
+        """componentwise relative comparison with the exact rational solution"""
+        U = int(case["unit"])
+        n = res["ndofs"]
+        if len(res["A"]) != n:
+            return None
+        A = [[Fraction(0)] * n for _ in range(n)]
+        for i, row in enumerate(res["A"]):
+            for c, v in row:
+                A[i][c] = Fraction(v, 1 << U)
+        b = [Fraction(v, 1 << U) for v in res["b"]]
+        x = _fsolve(A, b)
+        if x is None:
+            return None
+        for k, (split, rec) in enumerate(zip(case["splits"], res["outs"])):
+            exp = self._expected(case, split)
+            if exp is None:
+                continue
+            rows_p, rows_s, cols_p, cols_s = exp
+            Ass = [[A[i][c] for c in cols_s] for i in rows_s]
+            if _fsolve(Ass, [0] * len(rows_s)) is None:
+                continue
+            where = f"split {k} (scaled): "
+            if "err" in rec:
+                return where + f"assembly of an admissible split raised {rec['err']}"
+            if "err2" in rec:
+                return where + f"default inverter / reduced solve raised {rec['err2']}"
+            X = rec["X"]
+            if len(X) != n:
+                return where + "expanded solution has the wrong size"
+            for i in range(n):
+                if abs(Fraction(X[i]) - x[i]) > Fraction(1, 10 ** 9) * abs(x[i]):
+                    return where + ("expanded Schur solution differs from the full solve by "
+                                    f"component {i}: {X[i]!r} vs exact {float(x[i])!r}")
+        return None
+
     def oracle(self, case, res):
+        if case.get("unit"):
+            return self._oracle_scaled(case, res)
         if res["full"] is None:
             return None
         A = to_dense(res["A"], res["ndofs"])
@@ -409,14 +554,14 @@ class C07(Prop):
             terms.append(f"({_C06._eqarg_c(pe)}, {_C05._crefs(pv)}, {obs})")
         t = (f"agree7 {_C05._cgrid(case)} {self._vops(case)} {_C06._evtab(res)} {eops} "
              f"{clist(terms)}")
-        # certificate check of the default inverter's output on the first small block
+        # certificate check of the default inverter's output on the first small block:
+        # |(inv*A)_ij - delta_ij| <= 1e-9 * (1 if i = j else (|inv|*|A|)_ij)
         for rec in res["outs"]:
             if "inv" in rec and 0 < len(rec["inv"]) <= 10:
                 n = len(rec["inv"])
-                Ass = to_dense(rec["blocks"]["Ass"], n)
                 inv = clist(rec["inv"], lambda r: clist(r, _q))
-                a = clist(Ass.tolist(), lambda r: clist(r, _q))
-                t = (f"andb ({t}) (inv_ok (1 # 1000000000)%Q {cnat(n)} ({inv})%Q ({a})%Q)")
+                a = clist(rec["Ass_f"], lambda r: clist(r, _q))
+                t = (f"andb ({t}) (inv_ok_rel (1 # 1000000000)%Q {cnat(n)} ({inv})%Q ({a})%Q)")
                 break
         return t
 
